@@ -1,21 +1,21 @@
-/* env_split.h — libc models used by the C12 units (owner: split).
+/* env_split.h — libc / allocator models used by the C12 units (owner: split).
  *
- * Included after vprelude.h.  Two families, selected by the unit:
+ * Included after vprelude.h.  Everything here models code OUTSIDE /repo.  Selected by the unit:
  *
- *  VERIF_SPLIT_PRECISE  (tier B units; the unit defines VERIF_OWN_STRLEN and
- *      VERIF_OWN_STRCHR *before* vprelude.h so that env.h's loop-free
- *      over-approximations are not compiled): loop implementations of
- *      strlen/strnlen/strchr/strcpy/strcat that are the man-page functions
- *      byte for byte (first NUL, first occurrence).  They are unrolled by
- *      --unwind together with the code under test.
+ *  VERIF_SPLIT_PRECISE  (tier B units; the unit defines VERIF_OWN_STRLEN and VERIF_OWN_STRCHR *before*
+ *      vprelude.h so that env.h's loop-free over-approximations are not compiled):
+ *      - loop implementations of strlen/strnlen/strchr/index/strcpy/strcat that are the man-page functions
+ *        byte for byte (first NUL, first occurrence); unrolled by --unwind with the code under test;
+ *      - with VERIF_SPLIT_OWN_MEM also byte-loop memcpy/memmove/memset;
+ *      - malloc/realloc: constant-capacity blocks with a ghost canary (see below); free is cbmc's own;
+ *      - VS_ALLOC_OBJ(type): exact-size typed allocation for SPIF_ALLOC.
  *
- *  otherwise (tier P units): env.h's strlen/strchr stay in force; this file adds
- *      loop-free over-approximations of what env.h lacks:
- *      - realloc for byte buffers when the unit defines VERIF_SPLIT_REALLOC:
- *        fresh block, ARBITRARY contents except the byte at ghost index vg_k2
- *        (copied when it lies inside both blocks); old block freed.  The real
- *        realloc preserves every byte below min(old,new), so a proof against
- *        this model holds for the real one; vg_k2 is arbitrary.
+ *  VERIF_SPLIT_STRCHR_UF (tier P, with VERIF_OWN_STRCHR): loop-free DETERMINISTIC strchr (position =
+ *      uninterpreted function of (s, c)); over-approximates the real function like env.h's stub.
+ *
+ *  VERIF_SPLIT_REALLOC (tier P): realloc for byte buffers: fresh block, ARBITRARY contents except the byte
+ *      at ghost index vg_k2 (copied when it lies inside both blocks); old block freed.  The real realloc
+ *      preserves every byte below min(old,new), so a proof against this model holds for the real one.
  */
 #ifndef VERIF_ENV_SPLIT_H
 #define VERIF_ENV_SPLIT_H
@@ -98,8 +98,8 @@ void *memset(void *d, int c, size_t n)
  * runs out of memory).  Model used instead:
  *   - every block is a fresh dynamic object of VS_FAT data bytes (uninitialised), released by cbmc's own
  *     free (double free / invalid free checks stay in force); requests above VS_FAT fail an assertion;
- *   - the requested size n is recorded in a ghost table indexed by cbmc's object number; the byte at ghost index vg_k2 is set to a canary
- *     when n <= vg_k2 < VS_FAT.  vs_check_block() asserts that the canary is still there: because vg_k2
+ *   - the requested size n is recorded in a ghost table indexed by cbmc's object number; the byte at ghost
+ *     index vg_k2 is set to a canary when n <= vg_k2 < VS_FAT.  vs_check_block() asserts that the canary is still there: because vg_k2
  *     is arbitrary this is "no byte beyond the requested size was WRITTEN" for every offset up to VS_FAT.
  *     The check runs in realloc (on the old block) and wherever the harness calls it (returned blocks).
  * Not seen by this model: READS between the requested size and VS_FAT inside a block the code owns, and
@@ -148,16 +148,6 @@ void *realloc(void *p, size_t n)
     vs_check_block(p);
     m = vs_req[__CPROVER_POINTER_OBJECT(p) % VS_OBJS];
     __CPROVER_assert(n <= VS_FAT, "malloc model: request fits the fixed block capacity of this unit");
-#ifdef VERIF_SPLIT_REALLOC_INPLACE
-    /* RESTRICTION chosen by a unit (part of its stated bound): the block is resized in place and never
-     * moves.  Every moved block is one more candidate object for every later access through the pointer;
-     * with str.c re-allocating on each appended character the tok units are otherwise intractable.  What
-     * this leaves out (use of a stale pointer after a block moved) is internal to str.c (C01). */
-    vs_req[__CPROVER_POINTER_OBJECT(p) % VS_OBJS] = (unsigned char) n;
-    if (vg_k2 >= m && vg_k2 < VS_FAT) ((char *) p)[vg_k2] = nondet_char();
-    if (vg_k2 >= n && vg_k2 < VS_FAT) ((char *) p)[vg_k2] = VS_CANARY;
-    return p;
-#endif
     r = (char *) __CPROVER_allocate(VS_FAT, 0);
     vs_req[__CPROVER_POINTER_OBJECT(r) % VS_OBJS] = (unsigned char) n;
     /* constant-size block copy (a copy of min(old, new) bytes with a symbolic length goes through the array
